@@ -15,6 +15,7 @@ func init() {
 	RegisterExtra("C18", func(r *fw.Run, p *fw.Program) {
 		c18MemoDep(r, p)
 		c18Parked(r, p)
+		c18StaticType(r, p)
 	})
 }
 
